@@ -81,6 +81,7 @@ PROPS['C08']={
  'obligations':[{'name':'inspections','module':'harness.C08','cls':'Inspections','quick':{'ninsp':1},'thorough':{'ninsp':2}},
                 {'name':'inspections_after_two_steps','module':'harness.C08','cls':'Inspections','quick':{'ninsp':1,'two_steps':True},'thorough':{'ninsp':2,'two_steps':True}},
                 {'name':'inspections_after_a_failed_verification','module':'harness.C08','cls':'Inspections','quick':{'ninsp':1,'history':True},'thorough':{'ninsp':1,'history':True}},
+                {'name':'inspections_sharing_a_name','module':'harness.C08','cls':'InspectionsSharingAName','quick':{},'thorough':{}},
                 {'name':'sublayout_inspection','module':'harness.C08','cls':'SublayoutInspection','quick':{},'thorough':{}}]}
 
 UNIT_ASSUME=['std/dependency calls replaced by the listed models (coverage.trusted_base); every run replays sampled paths natively against the real crate and compares outcomes',
